@@ -288,6 +288,46 @@ func r14b(c *core.Ctx) {
 							}
 						}
 					}
+					// or the worker watches the very context the parent itself waits on: the parent leaves either by
+					// receiving the hand-off or because that context is done — in which case the worker's arm fires too
+					if !okCtx {
+						for _, st := range x.States {
+							if st.Dir != types.RecvOnly {
+								continue
+							}
+							r := doneReceiver(st.Chan)
+							if r == nil {
+								continue
+							}
+							for _, o := range core.Origins(boundOrSelf(r), core.OriginOpts{}) {
+								par, isPar := o.(*ssa.Parameter)
+								if !isPar || par.Parent() != fn {
+									continue
+								}
+								core.EachInstr(fn, func(_ *ssa.BasicBlock, _ int, pi ssa.Instruction) {
+									ps, ok := pi.(*ssa.Select)
+									if !ok || !ps.Blocking {
+										return
+									}
+									watchesSame, receives := false, false
+									for _, pst := range ps.States {
+										if pst.Dir != types.RecvOnly {
+											continue
+										}
+										if pr := doneReceiver(pst.Chan); pr != nil && core.Unspill(pr) == ssa.Value(par) {
+											watchesSame = true
+										} else if pr == nil {
+											receives = true
+										}
+									}
+									if watchesSame && receives {
+										okCtx = true
+										desc = "the parent's own context " + core.Expr(par)
+									}
+								})
+							}
+						}
+					}
 					c.Check(okCtx, key, s.Pos(), cl, "an unbuffered hand-off is a select that also watches a context the parent cancels (defer cancel()) when it returns", desc)
 				}
 			}
